@@ -78,6 +78,134 @@ def withdrawn_by_cleanup(rng):
     return {'objects': {}, 'roots': [{'name': 'r0', 'steps': steps}], 'start': 0, 'till': None}
 
 
+def across_runs(case):
+    """a task that is still suspended when its simulation runs dry lives on: a later simulation
+    cancels it - in that time step the cancellation is raised in it, awaiters of both simulations'
+    making get TaskCancelled(task, token), its status is CANCELLED and stays so"""
+    import usim
+    from usim import time, Scope, TaskCancelled, TaskState, CancelTask
+    from ..probe import Session
+    rng = random.Random('%s/%s/c06runs' % (case['seed'], case['index']))
+    violations = []
+    log, seen, tasks = [], [], []
+    flag = usim.Flag()
+    queue = usim.Queue()
+    # (not generated: a task suspended at a kernel break point - `await flag`, `await queue`,
+    # a contended lock, `time + d` - of the simulation that ended. The unchanged library refuses to resume those from another
+    # simulation ("Break points cannot be passed to other coroutines"), see DESIGN 11.3)
+    how = rng.choice(['eternity', 'eternity', 'nested-scope'])
+    lock = usim.Lock()
+
+    def vio(mechanism, msg):
+        violations.append({'mechanism': 'c06:' + mechanism, 'case': dict(case),
+                           'msg': 'task suspended (%s) when its simulation ran dry, cancelled '
+                                  'by a later simulation: %s' % (how, msg)})
+
+    async def worker():
+        try:
+            if how == 'eternity':
+                await usim.eternity
+            elif how == 'flag':
+                await flag
+            elif how == 'queue':
+                await queue
+            elif how == 'lock-waiter':
+                async with lock:
+                    await usim.eternity
+            else:
+                async with Scope() as inner:
+                    inner.do(idle())
+                    await usim.eternity
+        except CancelTask as err:
+            log.append(('cancelled', time.now, err.token))
+            raise
+
+    async def idle():
+        await usim.eternity
+
+    async def awaiter(task, name):
+        try:
+            await task
+            seen.append((name, time.now, 'returned'))
+        except TaskCancelled as err:
+            seen.append((name, time.now, err.subject is task, err.args))
+
+    async def first():
+        async with Scope() as scope:
+            if how == 'lock-waiter':
+                scope.do(holder())
+            tasks.append(scope.do(worker()))
+            if rng.random() < 0.5:
+                scope.do(awaiter(tasks[0], 'awaiter of the first simulation'))
+
+    async def holder():
+        async with lock:
+            await usim.eternity
+
+    sess1 = Session()
+    first_root = first()
+    outcome1 = sess1.run(first_root, start=rng.choice([0, 3]))
+    stats = {'c06_cancels_judged': 0, 'c06_samples': 0, 'c06_cancel_before_start': 0,
+             'graceful_cleanups': 0, 'c06_cancel_seen_cleanup_pending': 0, 'c06_cancel_running': 0,
+             'c06_awaits': 0, 'c06_pending_awaits_checked': 0, 'injected': 0,
+             'cancelled_by_a_later_simulation': 1, 'activations': sess1.n}
+    if outcome1[0] != 'ok' or not tasks or tasks[0].status is not TaskState.RUNNING:
+        vio('harness-error', 'first simulation: %r, %s' % (outcome1, tasks and tasks[0].status))
+        return {'evals': 1, 'sigs': [], 'stats': stats, 'violations': violations, 'sample': None}
+    task = tasks[0]
+    token = 'late-%d' % case['index']
+    delay = rng.choice([0, 5])
+    start = rng.choice([0, 100])
+    checks = []
+
+    async def second():
+        async with Scope() as scope:
+            if rng.random() < 0.7:
+                scope.do(awaiter(task, 'early awaiter'))
+            if delay:
+                await (time + delay)
+            checks.append(('before', task.status))
+            task.cancel(token)
+            await (time + 1)
+            checks.append(('a time step later', task.status))
+            scope.do(awaiter(task, 'late awaiter'))
+            task.cancel('again')
+    sess2 = Session()
+    second_root = second()
+    outcome2 = sess2.run(second_root, start=start)
+    stats['activations'] += sess2.n
+    stats['c06_cancels_judged'] += 1
+    stats['c06_cancel_running'] += 1
+    stats['c06_awaits'] += len(seen)
+    for sess in (sess1, sess2):
+        violations += [dict(v, case=dict(case)) for v in sess.violations
+                       if v['mechanism'].startswith('kernel-')]
+    at = start + delay
+    if outcome2[0] != 'ok':
+        vio('run-failed', 'second simulation ended with %r' % (outcome2[1],))
+    elif checks != [('before', TaskState.RUNNING), ('a time step later', TaskState.CANCELLED)] \
+            or task.status is not TaskState.CANCELLED:
+        vio('cancel-not-effective-in-time-step', 'status %s, finally %s' % (checks, task.status))
+    elif log != [('cancelled', at, (token,))]:
+        vio('cancel-not-effective-in-time-step',
+            'the task logged %s, expected the cancellation with token %r at %r' % (log, token, at))
+    else:
+        for entry in seen:
+            want_time = at + 1 if entry[0] == 'late awaiter' else at
+            if entry[1:] != (want_time, True, (token,)):
+                vio('awaiters-disagree', '%s saw %s, expected TaskCancelled(task, %r) at %r' % (
+                    entry[0], entry[1:], token, want_time))
+        if 'late awaiter' not in [entry[0] for entry in seen]:
+            vio('awaiter-not-woken', 'awaiters seen: %s' % (seen,))
+    for root in (first_root, second_root):
+        try:
+            root.close()
+        except BaseException:  # noqa: B902  (tearing down what is left, outside of any run)
+            pass
+    return {'evals': 2, 'sigs': [sess2.signature()], 'stats': stats, 'violations': violations,
+            'sample': None}
+
+
 def build(case):
     rng = random.Random('%s/%s/c06' % (case['seed'], case['index']))
     if case['index'] % 25 == 24:
@@ -98,5 +226,7 @@ def nontrivial(env, sess):
 
 
 def run_case(case):
+    if case['index'] % 25 == 23:
+        return across_runs(case)
     program, rng = build(case)
     return common.explore(case, program, rng, relevant, nontrivial, quick_injections=8)
